@@ -63,44 +63,66 @@ def generate(ctx, scratch, cfg, name='MC_gen', invariants=None, dump=True, timeo
     return out
 
 
+JUDGE_CHUNK = 60000       # events per acceptor run: keeps the deserialised trace file well inside the JVM heap
+
+
 def judge(ctx, scratch, traces, name='trace', timeout=3000, module='Trace_Codec'):
-    """traces: list of {'id','T','v','ev'}; returns list of (id, event index (1-based), clause)."""
-    path = scratch.file(name + '.ndjson')
-    nev = 0
-    with open(path, 'w') as f:
-        for t in traces:
-            if not t['ev']:
-                continue
-            nev += len(t['ev'])
-            f.write(json.dumps({'id': t['id'], 'T': t['T'], 'v': t['v'], 'ev': t['ev']}) + '\n')
-    if nev == 0:
+    """traces: list of {'id','T','v','ev'}; returns list of (id, event index (1-based), clause).
+    The traces are handed to the acceptor in bounded chunks (one TLC run each)."""
+    live = [t for t in traces if t['ev']]
+    if not live:
         raise core.Machinery('no events to judge')
-    cpath = scratch.file(name + '.cfg')
-    tlc.write_cfg(cpath, spec='TraceSpec')
-    r = tlc.run(os.path.join(tlc.SPEC, module + '.tla'), cpath, scratch, env={'TRACE_FILE': path},
-                timeout=timeout)
-    ctx.add_tlc(name, r)
-    if not r.ok:
-        raise core.Machinery('trace acceptor failed: errors=%s\n%s' % (r.errors[:3], r.out[-3000:]))
-    ntr = sum(1 for t in traces if t['ev'])
-    # every event must have been consumed: one state per event plus one initial state per trace
-    if r.distinct != nev + ntr:
-        raise core.Machinery('trace acceptor consumed %d states, expected %d events + %d traces' % (
-            r.distinct, nev, ntr))
+    chunks, cur, n = [], [], 0
+    for t in live:
+        if cur and n + len(t['ev']) > JUDGE_CHUNK:
+            chunks.append(cur)
+            cur, n = [], 0
+        cur.append(t)
+        n += len(t['ev'])
+    chunks.append(cur)
     rejects = []
     devs = {}
     skips = set()
     ctx.last_ks = {}
-    for p in r.printed:
-        if isinstance(p, list) and len(p) == 4 and p[0] == 'REJECT':
-            rejects.append((p[1], p[2], p[3]))
-        if isinstance(p, list) and len(p) == 5 and p[0] == 'REJECTK':
-            rejects.append((p[1], p[2], p[3]))
-            ctx.last_ks.setdefault((p[1], p[2]), []).append(p[4])
-        if isinstance(p, list) and len(p) == 4 and p[0] == 'DEV':
-            devs[(p[1], p[2])] = sorted(p[3])
-        if isinstance(p, list) and len(p) == 3 and p[0] == 'SKIP':
-            skips.add((p[1], p[2]))
+    total = None
+    for ci, chunk in enumerate(chunks):
+        cname = name if len(chunks) == 1 else '%s-%d' % (name, ci + 1)
+        path = scratch.file(cname + '.ndjson')
+        nev = 0
+        with open(path, 'w') as f:
+            for t in chunk:
+                nev += len(t['ev'])
+                f.write(json.dumps({'id': t['id'], 'T': t['T'], 'v': t['v'], 'ev': t['ev']}) + '\n')
+        cpath = scratch.file(cname + '.cfg')
+        tlc.write_cfg(cpath, spec='TraceSpec')
+        r = tlc.run(os.path.join(tlc.SPEC, module + '.tla'), cpath, scratch, env={'TRACE_FILE': path},
+                    timeout=timeout, heap='12g')
+        if not os.environ.get('VERIF_KEEP_SCRATCH'):
+            os.remove(path)
+        if not r.ok:
+            raise core.Machinery('trace acceptor failed: errors=%s\n%s' % (r.errors[:3], r.out[-3000:]))
+        # every event must have been consumed: one state per event plus one initial state per trace
+        if r.distinct != nev + len(chunk):
+            raise core.Machinery('trace acceptor consumed %d states, expected %d events + %d traces' % (
+                r.distinct, nev, len(chunk)))
+        if total is None:
+            total = r
+        else:
+            total.generated += r.generated
+            total.distinct += r.distinct
+            total.wall += r.wall
+            total.depth = max(total.depth or 0, r.depth or 0)
+        for p in r.printed:
+            if isinstance(p, list) and len(p) == 4 and p[0] == 'REJECT':
+                rejects.append((p[1], p[2], p[3]))
+            if isinstance(p, list) and len(p) == 5 and p[0] == 'REJECTK':
+                rejects.append((p[1], p[2], p[3]))
+                ctx.last_ks.setdefault((p[1], p[2]), []).append(p[4])
+            if isinstance(p, list) and len(p) == 4 and p[0] == 'DEV':
+                devs[(p[1], p[2])] = sorted(p[3])
+            if isinstance(p, list) and len(p) == 3 and p[0] == 'SKIP':
+                skips.add((p[1], p[2]))
+    ctx.add_tlc(name if len(chunks) == 1 else '%s (%d acceptor runs)' % (name, len(chunks)), total)
     ctx.last_devs = devs
     ctx.last_skips = skips
     return sorted(set(rejects))
